@@ -62,8 +62,14 @@ EXPRS = [
      ["def m = <<<1 => a, 2 => b>>>; def r = 0; for e in entries (m) do r += (e[1]) end; r"]),
     ("def m = <<<1 => a, 2 => b>>>; [v + c for v in values m]",
      ["def m = <<<1 => a, 2 => b>>>; [v + c for v in values (m)]", "def m = <<<1 => a, 2 => b>>>; [(v + c) for v in values (m)]"]),
-    ("def r = 0; for x in [a, b] do r += x end; r", ["def r = 0; for x in ([a, b]) do r += (x) end; r"]),
-    ("def r = a; while r < b do r += 2000 end; r", ["def r = a; while (r < b) do r += 2000 end; r"]),
+    ("def r = 0; for x in [a, b] do r += x end; r", ["def r = 0; for x in ([a, b]) do r += (x) end; r",
+                                                     "def r = 0; (for x in [a, b] do r += x end); r"]),
+    ("def r = a; while r < b do r += 2000 end; r", ["def r = a; while (r < b) do r += 2000 end; r",
+                                                   "def r = a; (while r < b do r += 2000 end); r"]),
+    ("def y = a; y + b", ["(def y = a); y + b", "(def y = (a)); (y + b)"]),
+    ("if a < b then c else a", ["(if a < b then c else a)", "((if (a < b) then c else a))"]),
+    ("def f = fn(x) x + a; f(b)", ["def f = (fn(x) x + a); f(b)", "(def f = fn(x) (x + a)); (f(b))"]),
+    ("do a + b end", ["(do a + b end)", "do (a + b) end"]),
     ("if a < b then do a end elif a < c then do b end else do c end",
      ["if a < b then do a; end elif a < c then do b; end else do c; end;", "if (a < b) then do (a) end elif (a < c) then do (b) end else do (c) end"]),
 ]
